@@ -86,7 +86,7 @@ Cfg == IF act = "option" THEN [debug |-> FALSE, gitignore |-> FALSE, hgignore |-
 RECURSIVE LinesClass(_)
 LinesClass(i) == IF i > Len(lines) THEN "" ELSE (IF i > 1 THEN "+" ELSE "") \o lines[i] \o LinesClass(i + 1)
 Scenario == [prop |-> "C20", class |-> tool \o "/" \o LinesClass(1) \o "/" \o spell \o "/" \o act, world |-> W, tool |-> tool,
-             lines |-> [i \in 1 .. Len(lines) |-> Forms[lines[i]]], active |-> (act # "override"),
+             lines |-> [i \in 1 .. Len(lines) |-> Forms[lines[i]]], active |-> (act # "override"), ctxs |-> <<>>,
              root |-> IF spell \in {"sub", "subdot"} THEN 4 ELSE IF spell \in {"gen", "gendot"} THEN 7 ELSE 0,
              env |-> [tz |-> "UTC", cwd |-> (CASE spell \in {"rel", "outer"} -> -1 [] spell = "subdot" -> 4 [] spell = "gendot" -> 7 [] OTHER -> 0), config |-> Cfg],
              runs |-> << [tag |-> "q", ncols |-> 2, argv |-> << Query >>] >>]
